@@ -220,7 +220,7 @@ class Mir:
         lines = text.split('\n'); i = 0; n = len(lines)
         while i < n:
             l = lines[i]
-            m = re.match(r'^const (.+?): (.+?) = const (.+);$', l)
+            m = re.match(r'^const (.+): (.+?) = const (.+);$', l)
             if m: self.consts[m.group(1)] = (m.group(3), m.group(2)); i += 1; continue
             m = re.match(r'^(fn|const|static) (.+) \{$', l)
             if m and (m.group(1) == 'fn' or ' = ' in l):
@@ -235,7 +235,7 @@ class Mir:
                         params.append((pm.group(1), pm.group(2)))
                     f = Func(name, params, retty)
                 else:
-                    hm = re.match(r'^(?:const|static) (?:mut )?(.+?): (.+) = \{$', l)
+                    hm = re.match(r'^(?:const|static) (?:mut )?(.+): (.+?) = \{$', l)
                     f = Func(hm.group(1), [], hm.group(2))
                 for a, b in f.params: f.locals[a] = b
                 i += 1; cur = None
@@ -352,6 +352,14 @@ class Opaque:
 class Closure:
     __slots__ = ('cid', 'f')
     def __init__(s, cid, f): s.cid = cid; s.f = f
+class LazyObj:
+    """a struct (or a reference to one) whose fields become symbolic values on first access; field types come from the
+    projection text of the MIR itself (`((*_1).3: Option<&[u8]>)`), so no declaration of the struct is needed"""
+    __slots__ = ('name', 'fields', 'ty')
+    def __init__(s, name, ty='', fields=None): s.name = name; s.ty = ty; s.fields = dict(fields or {})
+    def __repr__(s): return f'LazyObj({s.name}:{s.ty})'
+
+
 class Str:
     """a &str / &[u8; N] constant"""
     __slots__ = ('s',)
@@ -381,6 +389,8 @@ def ite_val(c, a, b):
         if isinstance(a.d, int) and isinstance(b.d, int) and a.d == b.d: return Enum(a.d, pl, a.ty)
         return Enum(If(c, a.disc(), b.disc()), pl, a.ty)
     if isinstance(a, Opaque) and isinstance(b, Opaque): return a
+    if isinstance(a, LazyObj) and isinstance(b, LazyObj):
+        return LazyObj(a.name, a.ty, {k: ite_val(c, a.fields.get(k), b.fields.get(k)) for k in set(a.fields) | set(b.fields)})
     if isinstance(a, Slice) and isinstance(b, Slice): return Slice(If(c, a.base, b.base), If(c, a.len, b.len), a.ety)
     if isinstance(a, Ptr) and isinstance(b, Ptr): return Ptr(If(c, a.addr, b.addr), a.ty)
     if a is None: return b
@@ -410,6 +420,7 @@ class State:
             if isinstance(v, Enum): return Enum(v.d, {k: [fix(x) for x in p] for k, p in v.payload.items()}, v.ty)
             if isinstance(v, Closure): return Closure(v.cid, [fix(x) for x in v.f])
             if isinstance(v, Opaque) and v.args: return Opaque(v.tag, tuple(fix(x) for x in v.args))
+            if isinstance(v, LazyObj): return LazyObj(v.name, v.ty, {k: fix(x) for k, x in v.fields.items()})
             return v
         for f in s.frames:
             g = mp[id(f)]
@@ -494,6 +505,24 @@ class Engine:
             self.ctx.setdefault('enum_ranges', []).append(ULT(d, len(vs)))
             return Enum(d, pl, base)
         raise Unsupported('fresh_of_type ' + ty)
+    def fresh_lazy(self, ty, name):
+        """symbolic value of a type named in MIR text (used for lazily materialised struct fields)"""
+        ty = ty.strip()
+        ty = re.sub(r"^&'?\w*\s*(mut )?", '', ty) if ty.startswith('&') and not ty.startswith(('&[', '&mut [', "&'a [", "&'a mut [")) else ty
+        if ty in INT_TYPES: return V(BitVec(name, INT_TYPES[ty][0]), ty)
+        if ty == 'bool': return V(Bool(name), 'bool')
+        m = re.fullmatch(r"(?:&(?:'\w+ )?(?:mut )?)\[(\w+)\]", ty)
+        if m: return Slice(BitVec(name + '.ptr', 64), BitVec(name + '.len', 64), m.group(1))
+        m = re.fullmatch(r'(?:std::vec::|alloc::vec::)?Vec<(\w+)>', ty)
+        if m: return Slice(BitVec(name + '.ptr', 64), BitVec(name + '.len', 64), m.group(1))
+        m = re.fullmatch(r'(?:std::option::|core::option::)?Option<(.+)>', ty)
+        if m:
+            d = BitVec(name + '.is_some', 64); self.ctx.setdefault('lazy_ranges', []).append(ULT(d, 2))
+            return Enum(d, {0: [], 1: [self.fresh_lazy(m.group(1), name + '.some')]}, 'Option')
+        m = re.fullmatch(r'\[(.+); (\d+)\]', ty)
+        if m: return Agg([self.fresh_lazy(m.group(1), f'{name}[{i}]') for i in range(int(m.group(2)))], ty, 'array')
+        if ty.startswith(('fn(', 'for<', 'unsafe fn(', 'extern ')): return Opaque('fnptr', (name,))
+        return LazyObj(name, ty)
     # ---- constants
     def const(self, s, ty_hint=None):
         s = s.strip()
@@ -522,6 +551,11 @@ class Engine:
             return V(BitVecVal(val, w), m.group(1))
         last = s.split('::')[-1]
         cands = [k for k in self.consts if k.split('::')[-1] == last]
+        if len(cands) > 1 and last.startswith('promoted['):
+            # promoted constants are printed with the type path at the use and with the impl location at the definition
+            cur = getattr(self, '_cur_fn', '')
+            c2 = [k for k in cands if k.rsplit('::', 1)[0] == cur]
+            if c2: cands = c2
         if len(cands) > 1: cands = [k for k in cands if s.endswith(k)]
         if len(cands) == 1:
             c = self.consts[cands[0]]
@@ -564,6 +598,7 @@ class Engine:
                 v = self.get(st, frame, local, proj)
                 if isinstance(v, Ref): frame, local, proj = v.frame, v.local, list(v.proj)
                 elif isinstance(v, (Ptr, Slice)): proj = proj + [('memderef', v)]
+                elif isinstance(v, LazyObj): pass          # a reference to a lazily materialised struct: same object
                 elif isinstance(v, (Opaque, Str)): proj = proj + [('opq', v)]
                 else: raise Unsupported(f'deref of {v}')
             elif p[0] == 'index':
@@ -578,6 +613,9 @@ class Engine:
                 if isinstance(v, (Agg, Closure)):
                     if p[1] >= len(v.f): raise Unsupported(f'field {p[1]} of {v}')
                     v = v.f[p[1]]
+                elif isinstance(v, LazyObj):
+                    if p[1] not in v.fields: v.fields[p[1]] = self.fresh_lazy(p[2], f'{v.name}.{p[1]}')
+                    v = v.fields[p[1]]
                 elif isinstance(v, Opaque): v = Opaque('field', (v, p[1]))
                 elif isinstance(v, Slice) and p[1] == 0: v = Ptr(v.base, v.ety)
                 else: raise Unsupported(f'field of {v}')
@@ -615,6 +653,9 @@ class Engine:
                     f = list(v.f)
                     while len(f) <= p[1]: f.append(None)
                     f[p[1]] = upd(f[p[1]], proj[1:]); return Agg(f, v.ty, v.kind)
+                if isinstance(v, LazyObj):
+                    if p[1] not in v.fields and len(proj) > 1: v.fields[p[1]] = self.fresh_lazy(p[2], f'{v.name}.{p[1]}')
+                    nf = dict(v.fields); nf[p[1]] = upd(nf.get(p[1]), proj[1:]); return LazyObj(v.name, v.ty, nf)
                 if v is None:
                     f = [None] * (p[1] + 1); f[p[1]] = upd(None, proj[1:]); return Agg(f)
                 raise Unsupported(f'put field of {v}')
@@ -682,6 +723,7 @@ class Engine:
     def store(self, st, addr, val, kind):
         w, _ = bvw(val.ty); n = w // 8
         st.log.append((kind, addr, n))
+        st.aux['writes'] = st.aux.get('writes', ()) + ((addr, val.t, n),)
         if not getattr(st.aux.get('overlay'), 'immutable', False):
             st.aux['overlay'] = None      # named bytes may be overwritten: fall back to the array
         for i in range(n): st.mem = Store(st.mem, addr + i, Extract(8 * i + 7, 8 * i, val.t))
@@ -766,7 +808,13 @@ class Engine:
         if kind == 'PointerExposeProvenance':
             if isinstance(v, Ptr): return V(v.addr, ty)
             if isinstance(v, Slice): return V(v.base, ty)
-        if kind.startswith('PointerCoercion'): return v
+        if kind.startswith('PointerCoercion'):
+            if 'Unsize' in kind and isinstance(v, Ref) and re.search(r'\[\w+\]$', ty.strip()):
+                inner = self.get(None, v.frame, v.local, v.proj) if True else None
+                if isinstance(inner, Agg) and inner.kind == 'array' and len(inner.f) == 0:
+                    self.fresh += 1; p = BitVec(f'emptyarr!{self.fresh}', 64)
+                    return Slice(p, BitVecVal(0, 64), 'u8')
+            return v
         if kind == 'PtrToPtr':
             if isinstance(v, Ptr): return Ptr(v.addr, pt)
             if isinstance(v, Slice): return Ptr(v.base, pt)
@@ -779,7 +827,7 @@ class Engine:
         if r.startswith('no_retag '): r = r[9:]
         if r.startswith(('copy ', 'move ', 'const ')):
             if not r.startswith(('const "', 'const b"')):
-                m = re.match(r'(.+) as (.+) \((\w+)(?:\(.*\))?\)$', r)
+                m = re.match(r'(.+) as (.+) \((\w+(?:\(.*\))?)\)$', r)
                 if m: return self.cast(self.operand(st, fr, m.group(1)), m.group(2), m.group(3))
             return self.operand(st, fr, r)
         if r.startswith('&'):
@@ -861,8 +909,14 @@ class Engine:
             for n, f in self.funcs.items():
                 if f.params and m.group(1) in f.params[0][1] and '{closure#' in n: return f
             return None
-        # crate-path prefix variants: `verifier::check` printed as `check`, `ebpf::get_insn` as `get_insn` ...
         parts = name.split('::')
+        if len(parts) >= 2 and parts[-2][:1].isupper() and not name.startswith('<'):
+            tn = parts[-2].split('<')[0]; cands0 = self.mir.by_last.get(parts[-1], [])
+            c2 = [c for c in cands0 if '<impl' in c and self.funcs[c].params and re.search(r'\b' + re.escape(tn) + r'\b', self.funcs[c].params[0][1])]
+            if len(c2) == 1: return self.funcs[c2[0]]
+            c3 = [c for c in cands0 if '<impl' in c and re.search(r'\b' + re.escape(tn) + r'\b', self.funcs[c].ret)]
+            if not c2 and len(c3) == 1: return self.funcs[c3[0]]
+        # crate-path prefix variants: `verifier::check` printed as `check`, `ebpf::get_insn` as `get_insn` ...
         for k in range(1, len(parts)):
             cand = '::'.join(parts[k:])
             if cand in self.funcs and not cand.startswith('<'): return self.funcs[cand]
@@ -905,7 +959,7 @@ class Engine:
         if self.cuts and (fr.func.name, fr.bb) in self.cuts and fr.tag == 'top':
             k = (fr.func.name, fr.bb); st.visits[k] = st.visits.get(k, 0) + 1
             if st.visits[k] >= 2: self.finish(st, 'cut', fr.bb); return None
-        self.used_funcs.add(fr.func.name)
+        self.used_funcs.add(fr.func.name); self._cur_fn = fr.func.name
         for s in blk.stmts:
             if s.startswith(('Deinit(', 'SetDiscriminant', 'StorageLive', 'Assume(', 'assume(')):
                 m = re.match(r'discriminant\((.+)\) = (\d+);$', s)
@@ -923,7 +977,8 @@ class Engine:
             fr.bb = re.search(r'bb\d+', t).group(0); return True
         if t == 'return;':
             rv = fr.locals.get('_0', Agg([], '()')); st.frames.pop()
-            if not st.frames or fr.tag == 'top': self.finish(st, 'return', rv); return None
+            if not st.frames or fr.tag == 'top':
+                st.aux['final_locals'] = fr.locals; self.finish(st, 'return', rv); return None
             if fr.tag == 'sub': self.finish(st, 'subreturn', rv); return None
             caller = st.frames[-1]
             if fr.ret_place is not None: self.wr(st, caller, fr.ret_place, rv)
@@ -1157,6 +1212,17 @@ def intrinsic(eng, st, fr, callee, base, args, R):
         if fn == 'unsigned_abs': return R(V(If(a.t < 0, -a.t, a.t), 'u' + ty[1:]))
         if fn == 'min': return R(V(If((a.t < args[1].t) if sg else ULT(a.t, args[1].t), a.t, args[1].t), ty))
         if fn == 'max': return R(V(If((a.t > args[1].t) if sg else UGT(a.t, args[1].t), a.t, args[1].t), ty))
+    if base.startswith('Option::') and base.endswith(('::as_ref', '::as_mut', '::as_deref', '::as_deref_mut', '::take')) :
+        o = deref(args[0])
+        if base.endswith('::take') and isinstance(args[0], Ref):
+            eng.put(st, args[0].frame, args[0].local, args[0].proj, Enum(0, {0: [], 1: o.payload.get(1, [])}, 'Option'))
+        return R(o)
+    if base in ('null_mut', 'null', 'std::ptr::null_mut', 'std::ptr::null', 'core::ptr::null_mut', 'core::ptr::null'):
+        return R(Ptr(BitVecVal(0, 64), 'u8'))
+    if base in ('std::vec::Vec::new', 'alloc::vec::Vec::new'):
+        eng.fresh += 1
+        p = BitVec(f'emptyvec!{eng.fresh}', 64); st.pc.append(p != 0)
+        return R(Slice(p, BitVecVal(0, 64), 'u8'))
     if base in ('std::f64::<impl f64>::sqrt', 'core::f64::<impl f64>::sqrt'):
         import z3
         return R(V(z3.fpSqrt(z3.RNE(), args[0].t), 'f64'))
@@ -1183,19 +1249,20 @@ def intrinsic(eng, st, fr, callee, base, args, R):
             eng.store(st, p.addr, V(args[1].t, p.ty if ty == 'T' else ty), 'write'); return R(Agg([], '()'))
         if fn == 'is_null': return R(V(p.addr == 0, 'bool'))
         if fn == 'cast': return R(Ptr(p.addr, p.ty))
-    m = re.match(r'<LittleEndian as ByteOrder>::read_(\w+)$', base)
+    m = re.match(r'<(?:byteorder::)?LittleEndian as (?:byteorder::)?ByteOrder>::read_(\w+)$', base)
     if m:
         s = deref(args[0]); ty = m.group(1); need = bvw(ty)[0] // 8
         if not eng.panic_if(st, fr, ULT(s.len, need), 'byteorder: slice shorter than value'): return None
         return R(eng.load(st, s.base, ty, 'sliceread'))
-    m = re.match(r'<LittleEndian as ByteOrder>::write_(\w+)$', base)
+    m = re.match(r'<(?:byteorder::)?LittleEndian as (?:byteorder::)?ByteOrder>::write_(\w+)$', base)
     if m:
         s = deref(args[0]); ty = m.group(1); need = bvw(ty)[0] // 8
         if not eng.panic_if(st, fr, ULT(s.len, need), 'byteorder: slice shorter than value'): return None
         eng.store(st, s.base, V(args[1].t, ty), 'slicewrite'); return R(Agg([], '()'))
-    m = re.match(r'<\[(\w+)\] as Index(Mut)?<std::ops::Range(From|To|Inclusive|)<usize>>>::index(_mut)?$', base)
+    m = re.match(r'<(?:\[(\w+)\]|std::vec::Vec<(\w+)>|alloc::vec::Vec<(\w+)>) as Index(?:Mut)?<std::ops::Range(From|To|Inclusive|)<usize>>>::index(?:_mut)?$', base)
     if m:
-        s = deref(args[0]); esz = bvw(m.group(1))[0] // 8; kind = m.group(3); rng = args[1]
+        ety_ = m.group(1) or m.group(2) or m.group(3); kind_ = m.group(4)
+        s = deref(args[0]); esz = bvw(ety_)[0] // 8; kind = kind_; rng = args[1]
         if isinstance(s, Slice):
             if kind == 'From':
                 start = rng.f[0].t
